@@ -140,6 +140,18 @@ example : ∃ ch : ChainDef, entryPanics ch = false ∧ ∃ s, stopper ch.rs = s
   ⟨{ rs := [{ id := 1, order := 0, beh := .pass }, { id := 2, order := 0, beh := .block .ctx 3 }] },
    by decide, _, rfl, _, _, rfl⟩
 
+
+/-- a first blocker built with `NewTokenResult(ResultStatusBlocked)` (no option at all) still yields a block error — of type
+    `BlockTypeUnknown`, no message / rule / snapshot — for the statistic slots and for the caller (`first_block_wins`),
+    and nothing escapes `api.Entry` (`no_panic_escapes_entry`) -/
+example : blockVal { id := 7, order := 3, beh := .block .bare 0 } 0 = {} := rfl
+
+def bareChain : ChainDef :=
+  { rs := [{ id := 7, order := 3, beh := .block .bare 0 }], ss := [{ id := 8, order := 0, beh := .ok }] }
+
+example (h : Heap) : ∃ c a, (apiEntry bareChain h).2.2 = .blocked c a {} :=
+  (first_block_wins bareChain h { id := 7, order := 3, beh := .block .bare 0 } .bare 0 (by decide) rfl rfl).1
+
 /-! ## 4. statistic slots are told once, and told of completion exactly for passed entries -/
 
 def isStat : Call → Bool
